@@ -1,6 +1,6 @@
 """C19 — scc and nonterminal_graph.  Contract check: the proved-sound Lean decider `sccOk` on every
-output of fggs.utils.scc; drift check: the literal Tarjan model `Impl.scc` must return the very same
-list (emission order is deterministic given insertion order).  Enumerated: all digraphs on <= 3
+output of fggs.utils.scc; correspondence: the literal Tarjan model `Impl.scc` (proved correct for every graph, C19b.scc_ok)
+must return the very same list (emission order is deterministic given insertion order).  Enumerated: all digraphs on <= 3
 (quick) / <= 4 (thorough) vertices with self-loops in every vertex insertion order; random to 12."""
 import itertools
 import fggs
@@ -15,7 +15,8 @@ RULE = ('all digraphs (self-loops allowed) on n<=3 vertices x all vertex inserti
         'new nonterminal edge in an existing right-hand side, new rule) / sum_products on the same object, compared with a freshly built '
         'grammar; non-trivial = has at least one edge between distinct vertices')
 ASSUMPTIONS = ['Python recursion limit (deep chains) is not exhibited by the fuelled model',
-               'the forall-theorem for the Tarjan model itself is not proved; the contract is decided per output by the proved-sound decider']
+               'the Tarjan model satisfies the contract for every graph (C19b.scc_ok); the library is tied to it by the exact comparison of the '
+               'component lists and, independently, by the proved-sound decider sccOk on every output']
 
 
 def enc_graph(order, adj):
